@@ -21,6 +21,7 @@ type Timer struct {
 	sleeper *Task
 	active  bool
 	Fired   int
+	key     uint64 // key of the callback task, derived from the creating task
 }
 
 //go:norace
@@ -30,6 +31,13 @@ func (k *Kernel) newTimer(d time.Duration) *Timer {
 		d = 0
 	}
 	t := &Timer{k: k, seq: k.timerSeq, due: time.Now().Add(d), active: true}
+	if c := k.Me(); c != nil {
+		c.children++
+		t.key = MixKey(c.Key, c.children)
+	} else {
+		k.rootKeys++
+		t.key = MixKey(0x71be, k.rootKeys)
+	}
 	k.timers = Push(k.timers, t)
 	return t
 }
@@ -176,6 +184,7 @@ func (k *Kernel) fireDue() {
 			t.active = false
 			fn := t.fn
 			k.logf("timer %d fires", t.seq)
+			k.KeyHint = t.key
 			k.Spawn(fmt.Sprintf("timer#%d", t.seq), 0, t, fn)
 		case t.sleeper != nil:
 			t.active = false
